@@ -781,6 +781,10 @@ func (ssc *StorageSmartContract) updateSettings(
 	if err := cstate.WithActivation(balances, "demeter", func() error {
 		return nil
 	}, func() error {
+		// the configuration becomes active at once here: it must pass the same check as a commit
+		if err := conf.validate(); err != nil {
+			return common.NewError("update_settings_validate", err.Error())
+		}
 		return ssc.saveConfig(balances, conf)
 	}); err != nil {
 		return "", err
